@@ -236,7 +236,20 @@ func (ex *Exec) eventName(fn *types.Func, call *ast.CallExpr) (string, bool) {
 		if ex.contract != nil && len(ex.inlineStack) == 0 {
 			// a callee named by an at-call clause of the unit under verification is an event of that unit
 			for _, ac := range ex.contract.AtCall {
-				if ac.Callee == fn.Name() || (fn.Pkg() != nil && ac.Callee == fn.Pkg().Name()+"."+fn.Name()) {
+				qualified := ""
+				if fn.Pkg() != nil {
+					qualified = fn.Pkg().Name() + "." + fn.Name()
+					if sig, ok := fn.Type().(*types.Signature); ok && sig.Recv() != nil {
+						rt := sig.Recv().Type()
+						if p, ok := rt.(*types.Pointer); ok {
+							rt = p.Elem()
+						}
+						if n, ok := rt.(*types.Named); ok {
+							qualified = fn.Pkg().Name() + "." + n.Obj().Name() + "." + fn.Name()
+						}
+					}
+				}
+				if ac.Callee == fn.Name() || ac.Callee == qualified {
 					return ac.Callee, true
 				}
 			}
@@ -266,6 +279,16 @@ func (ex *Exec) eventName(fn *types.Func, call *ast.CallExpr) (string, bool) {
 				return "ReadAll", true
 			}
 		case "google.golang.org/protobuf/encoding/protojson":
+			if sig, ok := fn.Type().(*types.Signature); ok && sig.Recv() != nil {
+				// MarshalOptions{...}.Marshal / UnmarshalOptions{...}.Unmarshal: not the strict default codec
+				rt := sig.Recv().Type()
+				if p, ok := rt.(*types.Pointer); ok {
+					rt = p.Elem()
+				}
+				if n, ok := rt.(*types.Named); ok {
+					return "protojson." + n.Obj().Name() + "." + fn.Name(), true
+				}
+			}
 			return "protojson." + fn.Name(), true
 		case "google.golang.org/protobuf/proto":
 			if fn.Name() == "Marshal" || fn.Name() == "Unmarshal" {
